@@ -36,7 +36,7 @@ def decItem? (s : String) : Option Item :=
   match s.splitOn "," with
   | [i, o, t] =>
     match i.toNat?, o.toNat?, decList? t with
-    | some i, some o, some t => some ⟨i, o, t, .idle⟩
+    | some i, some o, some t => some ⟨i, o, t, .idle, none⟩
     | _, _, _ => none
   | _ => none
 
@@ -61,6 +61,7 @@ def decEv? (s : String) : Option Ev :=
 def encReq : Req → String
   | .robots o i => s!"r{o},{i}"
   | .page i o => s!"p{i},{o}"
+  | .loaded o => s!"l{o}"
 
 def gateLoop (ua : Str) : St → Nat → List String → String
   | s, _, [] => "ok " ++ (if s.log.isEmpty then "~" else ";".intercalate (s.log.map encReq))
